@@ -604,6 +604,11 @@ func (n *ChanType) String() string {
 	if n.Direction == SendDirection {
 		s += "<-"
 	}
+	// The "<-" operator associates with the leftmost "chan" possible, so
+	// "chan <-chan T" is "chan<- (chan T)".
+	if e, ok := n.ElementType.(*ChanType); ok && n.Direction == NoDirection && e.Direction == ReceiveDirection {
+		return s + " (" + e.String() + ")"
+	}
 	return s + " " + n.ElementType.String()
 }
 
